@@ -226,24 +226,39 @@ fn render_stmts(sh: &Shader, stmts: &[Stmt], ind: usize, ctx: &mut Ctx, out: &mu
 }
 
 pub fn render(sh: &Shader) -> String {
-    let mut out = String::new();
-    out.push_str(&sh.prologue);
+    // every module-scope declaration is rendered into its own item; items are then emitted in
+    // canonical or permuted order
+    let mut items: Vec<(bool, String)> = Vec::new();
+    macro_rules! item {
+        ($is_global:expr, $body:expr) => {{
+            let mut out = String::new();
+            {
+                let out = &mut out;
+                $body(out);
+            }
+            items.push(($is_global, out));
+        }};
+    }
     for sd in &sh.structs {
+        item!(false, |out: &mut String| {
         writeln!(out, "struct {} {{", sd.name).unwrap();
         for m in &sd.members {
             writeln!(out, "    {}", member_decl(m, &sh.structs)).unwrap();
         }
         writeln!(out, "}}").unwrap();
+        });
     }
     for c in &sh.consts {
-        writeln!(out, "const {}{};", c.name, c.decl).unwrap();
+        item!(false, |out: &mut String| writeln!(out, "const {}{};", c.name, c.decl).unwrap());
     }
     for o in &sh.overrides {
+        item!(false, |out: &mut String| {
         let id = o.id.map(|i| format!("@id({i}) ")).unwrap_or_default();
         match &o.init {
             Some(init) => writeln!(out, "{id}override {}: {} = {};", o.name, o.ty.wgsl(), init).unwrap(),
             None => writeln!(out, "{id}override {}: {};", o.name, o.ty.wgsl()).unwrap(),
         }
+        });
     }
     let order: Vec<usize> = if sh.global_order.len() == sh.globals.len() {
         sh.global_order.clone()
@@ -251,9 +266,10 @@ pub fn render(sh: &Shader) -> String {
         (0..sh.globals.len()).collect()
     };
     for gi in order {
-        writeln!(out, "{}", global_decl(&sh.globals[gi], &sh.structs)).unwrap();
+        item!(true, |out: &mut String| writeln!(out, "{}", global_decl(&sh.globals[gi], &sh.structs)).unwrap());
     }
     for f in &sh.funcs {
+        item!(false, |out: &mut String| {
         let mut ctx = Ctx { n: 0 };
         if f.ret {
             writeln!(out, "fn {}(x: f32) -> f32 {{", f.name).unwrap();
@@ -261,13 +277,15 @@ pub fn render(sh: &Shader) -> String {
             writeln!(out, "fn {}(x: f32) {{", f.name).unwrap();
         }
         writeln!(out, "    var acc: f32 = x;").unwrap();
-        render_stmts(sh, &f.body, 1, &mut ctx, &mut out, f.ret);
+        render_stmts(sh, &f.body, 1, &mut ctx, out, f.ret);
         if f.ret {
             writeln!(out, "    return acc;").unwrap();
         }
         writeln!(out, "}}").unwrap();
+        });
     }
     for e in &sh.entries {
+        item!(false, |out: &mut String| {
         let mut ctx = Ctx { n: 0 };
         let stage = match e.stage {
             Stage::Vertex => "@vertex".to_string(),
@@ -311,12 +329,35 @@ pub fn render(sh: &Shader) -> String {
         };
         writeln!(out, "{stage}\nfn {}({}){} {{", e.name, params.join(", "), ret_sig).unwrap();
         writeln!(out, "    var acc: f32 = 1.0;").unwrap();
-        render_stmts(sh, &e.body, 1, &mut ctx, &mut out, false);
+        render_stmts(sh, &e.body, 1, &mut ctx, out, false);
         if let Some(t) = ret_ty {
             writeln!(out, "    var out_value: {t};").unwrap();
             writeln!(out, "    return out_value;").unwrap();
         }
         writeln!(out, "}}").unwrap();
+        });
+    }
+    if sh.item_shuffle != 0 && items.len() > 1 {
+        // Fisher-Yates with a splitmix stream derived from the (proptest-provided) seed
+        let globals_in_order: Vec<String> = items.iter().filter(|i| i.0).map(|i| i.1.clone()).collect();
+        let mut state = sh.item_shuffle;
+        for i in (1..items.len()).rev() {
+            state = crate::chooser::mix(state, i as u64);
+            let j = (state % (i as u64 + 1)) as usize;
+            items.swap(i, j);
+        }
+        // module-scope variables keep their relative declaration order
+        let mut g = globals_in_order.into_iter();
+        for it in items.iter_mut() {
+            if it.0 {
+                it.1 = g.next().unwrap();
+            }
+        }
+    }
+    let mut out = String::new();
+    out.push_str(&sh.prologue);
+    for (_, s) in items {
+        out.push_str(&s);
     }
     out.push_str(&sh.epilogue);
     out
